@@ -7,8 +7,11 @@ polls in `st.polls`); with `st.cancelAt = some k` the `k`-th poll and all later 
 `Live st` says that no poll performed so far reported "cancelled" (`∀ k, st.cancelAt = some k → st.polls < k`).
 `alphaBetaSearch` ends with one more poll and returns `none` (`ErrHalted`) iff that poll reports cancelled.
 
-Hypotheses as in C11 (`EvalOk`, `HashOK`, `RootFree` for the root ply, `leafGrade le + d ≤ 127`, a `Sound`
-starting table of any size); the cancellation instant `k` is arbitrary.
+Hypotheses as in C11, on a region `R` containing the search tree (`Closed g ex R`, `R d p`; `EvalOk`, `HashOKOn`,
+`RootFreeOn` for the root ply, `leafGrade le + d ≤ 127`, a starting table of any size that is `SoundOn` the region);
+the cancellation instant `k` is arbitrary. The `…_on` theorems are the main statements; the global forms under the
+old names are corollaries (`R := Everywhere`) and say nothing about the chess game (see C11). Instances on the chess
+game are at the end.
 -/
 namespace Morlock.Props.C12
 open Morlock Morlock.Model Morlock.Model.Score Morlock.Spec Morlock.Proofs.AB
@@ -36,19 +39,22 @@ theorem reports_halted (g : Game P) (ex : Explore) (le : LeafEval) (p : P) (d : 
     have := (cancelled_false_iff r.2.2).1 hc'
     exact ⟨fun h => (by cases h), fun h => absurd this h⟩
 
+/-! ## The theorems on a region (see C11 for regions: `Closed`, `Tree`, `HashOKOn`, `RootFreeOn`, `SoundOn`) -/
+
 /-- **C12 (halted at any poll of the search).** If the context is cancelled at the `k`-th poll and the
     search performs at least `k` polls (counting from `st.polls`, including the final one of
     `alphaBetaSearch`), the result is `none`: a score is never reported by a halted search. If it performs
     fewer than `k` polls it was never disturbed and reports exactly `V`. -/
-theorem reports_halted_at (g : Game P) (ex : Explore) (le : LeafEval) (hev : EvalOk g) (hh : HashOK g ex le)
-    (p : P) (hrf : RootFree g (g.ply p)) (d : Nat) (hd : leafGrade le + d ≤ 127)
-    (st : SState) (hs : Sound g ex le st.tt) (k : Nat) (hk : st.cancelAt = some k) :
+theorem reports_halted_at_on (g : Game P) (ex : Explore) (le : LeafEval) (hev : EvalOk g)
+    {R : Nat → P → Prop} (hcl : Closed g ex R) (hh : HashOKOn g ex le R)
+    (p : P) (hrf : RootFreeOn g R (g.ply p)) (d : Nat) (hd : leafGrade le + d ≤ 127) (hp : R d p)
+    (st : SState) (hs : SoundOn g ex le R st.tt) (k : Nat) (hk : st.cancelAt = some k) :
     (k ≤ (alphaBetaSearch g ex le p d invalidScore invalidScore st).2.polls →
       (alphaBetaSearch g ex le p d invalidScore invalidScore st).1 = none) ∧
     ((alphaBetaSearch g ex le p d invalidScore invalidScore st).2.polls < k →
       ∃ n pv, (alphaBetaSearch g ex le p d invalidScore invalidScore st).1 =
         some ⟨n, V g ex le (g.ply p) d p, pv⟩ ∧ Principal g ex le (g.ply p) d p pv) := by
-  obtain ⟨h1, _, h3, h4⟩ := alphaBetaSearch_tt hev ex le hh p hrf d hd st hs
+  obtain ⟨h1, _, h3, h4⟩ := alphaBetaSearch_tt hev ex le hcl (fun _ _ h => h) hh p hrf d hd hp st hs
   have hk' : (alphaBetaSearch g ex le p d invalidScore invalidScore st).2.cancelAt = some k := by
     rw [h1.1]; exact hk
   constructor
@@ -68,34 +74,92 @@ theorem reports_halted_at (g : Game P) (ex : Explore) (le : LeafEval) (hev : Eva
 
 /-- The search polls at least twice (on entry and at the end of `alphaBetaSearch`), so a context that is
     already cancelled (`k ≤ st.polls + 1`) always yields `none`. -/
-theorem halted_before_start (g : Game P) (ex : Explore) (le : LeafEval) (hev : EvalOk g) (hh : HashOK g ex le)
-    (p : P) (hrf : RootFree g (g.ply p)) (d : Nat) (hd : leafGrade le + d ≤ 127)
-    (st : SState) (hs : Sound g ex le st.tt) (k : Nat) (hk : st.cancelAt = some k) (hle : k ≤ st.polls + 1) :
+theorem halted_before_start_on (g : Game P) (ex : Explore) (le : LeafEval) (hev : EvalOk g)
+    {R : Nat → P → Prop} (hcl : Closed g ex R) (hh : HashOKOn g ex le R)
+    (p : P) (hrf : RootFreeOn g R (g.ply p)) (d : Nat) (hd : leafGrade le + d ≤ 127) (hp : R d p)
+    (st : SState) (hs : SoundOn g ex le R st.tt) (k : Nat) (hk : st.cancelAt = some k) (hle : k ≤ st.polls + 1) :
     (alphaBetaSearch g ex le p d invalidScore invalidScore st).1 = none := by
-  apply (reports_halted_at g ex le hev hh p hrf d hd st hs k hk).1
-  have hm := (alphabeta_tt_full hev ex le hrf hh d hd p { st with nodes := 0 } hs).1
+  apply (reports_halted_at_on g ex le hev hcl hh p hrf d hd hp st hs k hk).1
+  have hm := (alphabeta_tt_full hev ex le hcl (fun _ _ h => h) hrf hh d hd p hp { st with nodes := 0 } hs).1
   rw [alphaBetaSearch_state]
   have := hm.2
   simp only [tick] at this ⊢
   omega
 
 /-- **C12 (a halted search leaves nothing behind: `alphabeta`).** Whatever the cancellation instant `k`
-    and whatever the window of graded-valid scores, the table after the run is sound: every entry stored
-    before the halt is a true value (stores only follow a poll that reported "not cancelled", and
+    and whatever the window of graded-valid scores, the table after the run is sound on the region: every entry
+    stored before the halt is a true value (stores only follow a poll that reported "not cancelled", and
     cancellation is monotone). -/
-theorem leaves_nothing (g : Game P) (ex : Explore) (le : LeafEval) (rootPly : Int) (hev : EvalOk g)
-    (hh : HashOK g ex le) (hrf : RootFree g rootPly) (K d : Nat) (hK : leafGrade le ≤ K) (hKd : K + d ≤ 127)
-    (p : P) (alpha beta : Score) (st : SState) (hs : Sound g ex le st.tt)
+theorem leaves_nothing_on (g : Game P) (ex : Explore) (le : LeafEval) (rootPly : Int) (hev : EvalOk g)
+    {R : Nat → P → Prop} (hcl : Closed g ex R)
+    (hh : HashOKOn g ex le R) (hrf : RootFreeOn g R rootPly) (K d : Nat) (hK : leafGrade le ≤ K) (hKd : K + d ≤ 127)
+    (p : P) (hp : R d p) (alpha beta : Score) (st : SState) (hs : SoundOn g ex le R st.tt)
     (ha : okN (K + d) alpha) (hb : okN (K + d) beta) (k : Nat) :
-    Sound g ex le (alphabeta g ex le rootPly d p alpha beta { st with cancelAt := some k }).2.2.tt :=
-  ((alphabeta_recTT hev ex le hrf hh K hK d hKd).node p alpha beta { st with cancelAt := some k } hs
-    (fun _ => ⟨ha, hb⟩)).2.1
+    SoundOn g ex le R (alphabeta g ex le rootPly d p alpha beta { st with cancelAt := some k }).2.2.tt :=
+  ((alphabeta_recTT hev ex le hcl (fun _ _ h => h) hrf hh K hK d hKd).node p alpha beta
+    { st with cancelAt := some k } hp hs (fun _ => ⟨ha, hb⟩)).2.1
 
 /-- **C12 (a halted search leaves nothing behind: `AlphaBeta.Search`).** Halt a search at an arbitrary
     instant `k` (it may also run to completion), then run any search — any root `q` of the same game, any
     depth — on the table it left, with a fresh context: the second search returns exactly the value `V` of
     its root, which is what it returns had the first search never run (same starting state `st`), and what
-    the table-free search returns. -/
+    the table-free search returns. `U` is a region containing the trees of both searches (e.g. their union,
+    `Trees g ex [(p, d), (q, d2)]`). -/
+theorem next_search_exact_on (g : Game P) (ex : Explore) (le : LeafEval) (hev : EvalOk g)
+    {U : Nat → P → Prop} (hh : HashOKOn g ex le U)
+    (p : P) (d : Nat) (hd : leafGrade le + d ≤ 127)
+    (hpU : ∀ n x, Tree g ex p d n x → U n x) (hrf : RootFreeOn g (Tree g ex p d) (g.ply p))
+    (q : P) (d2 : Nat) (hd2 : leafGrade le + d2 ≤ 127)
+    (hqU : ∀ n x, Tree g ex q d2 n x → U n x) (hrfq : RootFreeOn g (Tree g ex q d2) (g.ply q))
+    (st : SState) (hs : SoundOn g ex le U st.tt) (k : Nat) :
+    let halted := alphaBetaSearch g ex le p d invalidScore invalidScore { st with cancelAt := some k }
+    SoundOn g ex le U halted.2.tt ∧
+    (alphaBetaSearch g ex le q d2 invalidScore invalidScore { halted.2 with cancelAt := none }).1.map (·.score)
+      = some (V g ex le (g.ply q) d2 q) ∧
+    (alphaBetaSearch g ex le q d2 invalidScore invalidScore { halted.2 with cancelAt := none }).1.map (·.score)
+      = (alphaBetaSearch g ex le q d2 invalidScore invalidScore { st with cancelAt := none }).1.map (·.score) := by
+  intro halted
+  have h2 : SoundOn g ex le U halted.2.tt :=
+    (alphaBetaSearch_tt hev ex le (tree_closed g ex p d) hpU hh p hrf d hd (tree_root g ex p d)
+      { st with cancelAt := some k } hs).2.1
+  obtain ⟨m1, _, _, f1⟩ := alphaBetaSearch_tt hev ex le (tree_closed g ex q d2) hqU hh q hrfq d2 hd2
+    (tree_root g ex q d2) { halted.2 with cancelAt := none } h2
+  obtain ⟨m2, _, _, f2⟩ := alphaBetaSearch_tt hev ex le (tree_closed g ex q d2) hqU hh q hrfq d2 hd2
+    (tree_root g ex q d2) { st with cancelAt := none } hs
+  obtain ⟨n1, pv1, e1, _⟩ := f1 (live_of_none (by rw [m1.1]))
+  obtain ⟨n2, pv2, e2, _⟩ := f2 (live_of_none (by rw [m2.1]))
+  refine ⟨h2, ?_, ?_⟩
+  · rw [e1]; rfl
+  · rw [e1, e2]; rfl
+
+/-! ## The global forms (corollaries: `R := Everywhere`; see the remark in C11) -/
+
+theorem reports_halted_at (g : Game P) (ex : Explore) (le : LeafEval) (hev : EvalOk g) (hh : HashOK g ex le)
+    (p : P) (hrf : RootFree g (g.ply p)) (d : Nat) (hd : leafGrade le + d ≤ 127)
+    (st : SState) (hs : Sound g ex le st.tt) (k : Nat) (hk : st.cancelAt = some k) :
+    (k ≤ (alphaBetaSearch g ex le p d invalidScore invalidScore st).2.polls →
+      (alphaBetaSearch g ex le p d invalidScore invalidScore st).1 = none) ∧
+    ((alphaBetaSearch g ex le p d invalidScore invalidScore st).2.polls < k →
+      ∃ n pv, (alphaBetaSearch g ex le p d invalidScore invalidScore st).1 =
+        some ⟨n, V g ex le (g.ply p) d p, pv⟩ ∧ Principal g ex le (g.ply p) d p pv) :=
+  reports_halted_at_on g ex le hev (closed_everywhere g ex) (hh.on _) p (hrf.on _) d hd trivial st
+    (sound_iff_on.1 hs) k hk
+
+theorem halted_before_start (g : Game P) (ex : Explore) (le : LeafEval) (hev : EvalOk g) (hh : HashOK g ex le)
+    (p : P) (hrf : RootFree g (g.ply p)) (d : Nat) (hd : leafGrade le + d ≤ 127)
+    (st : SState) (hs : Sound g ex le st.tt) (k : Nat) (hk : st.cancelAt = some k) (hle : k ≤ st.polls + 1) :
+    (alphaBetaSearch g ex le p d invalidScore invalidScore st).1 = none :=
+  halted_before_start_on g ex le hev (closed_everywhere g ex) (hh.on _) p (hrf.on _) d hd trivial st
+    (sound_iff_on.1 hs) k hk hle
+
+theorem leaves_nothing (g : Game P) (ex : Explore) (le : LeafEval) (rootPly : Int) (hev : EvalOk g)
+    (hh : HashOK g ex le) (hrf : RootFree g rootPly) (K d : Nat) (hK : leafGrade le ≤ K) (hKd : K + d ≤ 127)
+    (p : P) (alpha beta : Score) (st : SState) (hs : Sound g ex le st.tt)
+    (ha : okN (K + d) alpha) (hb : okN (K + d) beta) (k : Nat) :
+    Sound g ex le (alphabeta g ex le rootPly d p alpha beta { st with cancelAt := some k }).2.2.tt :=
+  sound_iff_on.2 (leaves_nothing_on g ex le rootPly hev (closed_everywhere g ex) (hh.on _) (hrf.on _) K d hK hKd p
+    trivial alpha beta st (sound_iff_on.1 hs) ha hb k)
+
 theorem next_search_exact (g : Game P) (ex : Explore) (le : LeafEval) (hev : EvalOk g) (hh : HashOK g ex le)
     (p : P) (hrf : RootFree g (g.ply p)) (d : Nat) (hd : leafGrade le + d ≤ 127)
     (q : P) (hrfq : RootFree g (g.ply q)) (d2 : Nat) (hd2 : leafGrade le + d2 ≤ 127)
@@ -107,15 +171,9 @@ theorem next_search_exact (g : Game P) (ex : Explore) (le : LeafEval) (hev : Eva
     (alphaBetaSearch g ex le q d2 invalidScore invalidScore { halted.2 with cancelAt := none }).1.map (·.score)
       = (alphaBetaSearch g ex le q d2 invalidScore invalidScore { st with cancelAt := none }).1.map (·.score) := by
   intro halted
-  have h2 : Sound g ex le halted.2.tt :=
-    (alphaBetaSearch_tt hev ex le hh p hrf d hd { st with cancelAt := some k } hs).2.1
-  obtain ⟨_, _, n1, pv1, e1, _⟩ := C11.search_exact g ex le hev hh q hrfq d2 hd2
-    { halted.2 with cancelAt := none } h2 rfl
-  obtain ⟨_, _, n2, pv2, e2, _⟩ := C11.search_exact g ex le hev hh q hrfq d2 hd2
-    { st with cancelAt := none } hs rfl
-  refine ⟨h2, ?_, ?_⟩
-  · rw [e1]; rfl
-  · rw [e1, e2]; rfl
+  obtain ⟨h1, h2⟩ := next_search_exact_on g ex le hev (hh.on Everywhere) p d hd (fun _ _ _ => trivial) (hrf.on _)
+    q d2 hd2 (fun _ _ _ => trivial) (hrfq.on _) st (sound_iff_on.1 hs) k
+  exact ⟨sound_iff_on.2 h1, h2⟩
 
 /-! ## Non-vacuity: the tiny game of C13 with a real table, halted at every possible instant -/
 
@@ -146,5 +204,88 @@ example : (alphaBetaSearch tiny allMoves .static 0 2 invalidScore invalidScore
     some (V tiny allMoves .static 0 2 0) :=
   (next_search_exact tiny allMoves .static tiny_evalOk (tiny_hashOK _) 0 (tiny_rootFree _ (by decide)) 3 (by decide)
     0 (tiny_rootFree _ (by decide)) 2 (by decide) st64 (fresh_sound _ _ _ 64 0) 9).2.1
+
+-- instances of `reports_halted_at`, `halted_before_start`, `leaves_nothing` on the tiny game
+open C13 C11 in
+example : (alphaBetaSearch tiny allMoves .static 0 2 invalidScore invalidScore { st64 with cancelAt := some 9 }).1 = none :=
+  (reports_halted_at tiny allMoves .static tiny_evalOk (tiny_hashOK _) 0 (tiny_rootFree _ (by decide)) 2 (by decide)
+    { st64 with cancelAt := some 9 } (fresh_sound _ _ _ 64 0) 9 rfl).1 (by decide)
+
+open C13 C11 in
+example : (alphaBetaSearch tiny allMoves .static 0 2 invalidScore invalidScore
+    { st64 with cancelAt := some 1, polls := 0 }).1 = none :=
+  halted_before_start tiny allMoves .static tiny_evalOk (tiny_hashOK _) 0 (tiny_rootFree _ (by decide)) 2 (by decide)
+    { st64 with cancelAt := some 1, polls := 0 } (fresh_sound _ _ _ 64 0) 1 rfl (by decide)
+
+open C13 C11 in
+example (k : Nat) : Sound tiny allMoves .static
+    (alphabeta tiny allMoves .static 0 2 0 (heuristicScore 0) (heuristicScore 50) { st64 with cancelAt := some k }).2.2.tt :=
+  leaves_nothing tiny allMoves .static 0 tiny_evalOk (tiny_hashOK _) (tiny_rootFree 0 (by decide)) 0 2 (by decide)
+    (by decide) 0 _ _ st64 (fresh_sound _ _ _ 64 0) (by decide) (by decide) k
+
+/-! ## Non-vacuity on the chess game (`materialGame exZ`, worlds built by `newBoard`, a table of 128 slots)
+
+Notation as in C11 (`gX`, `wS`, `w1`, `st4k`, `seqX`; `Morlock/Proofs/ABChessTree.lean`). The search of `wS` to
+depth 2 performs 49 polls. -/
+
+section Chess
+open C11
+
+set_option maxRecDepth 100000 in
+/-- `reports_halted_at_on`: halted at the 40th poll the search reports `none`; halted "at the 50th" it is never
+    disturbed and reports the reference value. -/
+example :
+    (alphaBetaSearch gX fullExploration .static wS 2 invalidScore invalidScore { st4k with cancelAt := some 40 }).1 = none ∧
+    ∃ n pv, (alphaBetaSearch gX fullExploration .static wS 2 invalidScore invalidScore
+        { st4k with cancelAt := some 50 }).1 = some ⟨n, V gX fullExploration .static (gX.ply wS) 2 wS, pv⟩ ∧
+      Principal gX fullExploration .static (gX.ply wS) 2 wS pv :=
+  ⟨(reports_halted_at_on gX fullExploration .static gX_evalOk (tree_closed _ _ wS 2) (wS_hashOK _) wS
+      (wS_noDraw.rootFreeOn _) 2 (by decide) (tree_root _ _ _ _) { st4k with cancelAt := some 40 }
+      (fresh_sound_on _ _ _ _ 4096 0) 40 rfl).1 (by decide +kernel),
+   (reports_halted_at_on gX fullExploration .static gX_evalOk (tree_closed _ _ wS 2) (wS_hashOK _) wS
+      (wS_noDraw.rootFreeOn _) 2 (by decide) (tree_root _ _ _ _) { st4k with cancelAt := some 50 }
+      (fresh_sound_on _ _ _ _ 4096 0) 50 rfl).2 (by decide +kernel)⟩
+
+/-- `halted_before_start_on`: a context that is already cancelled. -/
+example :
+    (alphaBetaSearch gX fullExploration (.quiescence capX 64) wS 2 invalidScore invalidScore
+      { st4k with cancelAt := some 1 }).1 = none :=
+  halted_before_start_on gX fullExploration _ gX_evalOk (tree_closed _ _ wS 2) (wS_hashOK _) wS
+    (wS_noDraw.rootFreeOn _) 2 (by decide) (tree_root _ _ _ _) { st4k with cancelAt := some 1 }
+    (fresh_sound_on _ _ _ _ 4096 0) 1 rfl (by decide)
+
+/-- `leaves_nothing_on`: halted at any instant, any window - here (mated in 2, +5) - the table stays sound. -/
+example (k : Nat) : SoundOn gX fullExploration .static (Tree gX fullExploration wS 2)
+    (alphabeta gX fullExploration .static 1 2 wS (mateInXScore (-2)) (heuristicScore 5)
+      { st4k with cancelAt := some k }).2.2.tt :=
+  leaves_nothing_on gX fullExploration .static 1 gX_evalOk (tree_closed _ _ wS 2) (wS_hashOK _)
+    (wS_noDraw.rootFreeOn 1) 0 2 (by decide) (by decide) wS (tree_root _ _ _ _) _ _ st4k
+    (fresh_sound_on _ _ _ _ 4096 0) (by decide) (by decide) k
+
+/-- `next_search_exact_on`: halt the depth-2 search of `wS` at any instant `k`, then search the successor position
+    `w1` (depth 1) on the table left behind: exact. The region is the union of the trees of `seqX`. -/
+example (k : Nat) :
+    (alphaBetaSearch gX fullExploration .static w1 1 invalidScore invalidScore
+      { (alphaBetaSearch gX fullExploration .static wS 2 invalidScore invalidScore
+          { st4k with cancelAt := some k }).2 with cancelAt := none }).1.map (·.score) =
+    some (V gX fullExploration .static (gX.ply w1) 1 w1) :=
+  (next_search_exact_on gX fullExploration .static gX_evalOk (seqX_hashOK _)
+    wS 2 (by decide) (fun n x h => ⟨(wS, 2), by simp [seqX], h⟩)
+    ((seqX_noDraw.mono (fun n x h => ⟨(wS, 2), by simp [seqX], h⟩)).rootFreeOn _)
+    w1 1 (by decide) (fun n x h => ⟨(w1, 1), by simp [seqX], h⟩)
+    ((seqX_noDraw.mono (fun n x h => ⟨(w1, 1), by simp [seqX], h⟩)).rootFreeOn _)
+    st4k (fresh_sound_on _ _ _ _ 4096 0) k).2.1
+
+set_option maxRecDepth 100000 in
+/-- What actually happens: halted at the 40th poll the search has already stored two entries; the search of `wS`
+    run next on that table reports the same score as on an empty table. -/
+example :
+    (alphaBetaSearch gX fullExploration .static wS 2 invalidScore invalidScore { st4k with cancelAt := some 40 }).2.tt.used = 2 ∧
+    (alphaBetaSearch gX fullExploration .static wS 2 invalidScore invalidScore
+      { (alphaBetaSearch gX fullExploration .static wS 2 invalidScore invalidScore
+          { st4k with cancelAt := some 40 }).2 with cancelAt := none }).1.map (·.score) = some zeroScore := by
+  decide +kernel
+
+end Chess
 
 end Morlock.Props.C12
